@@ -112,6 +112,7 @@ type c10Res struct {
 	Q   int        `json:"q"`   // re-encoding == input: 1 yes, 0 no, 2 not applicable
 	K   [][][2]int `json:"k"`   // values of the known records 1,2,3 after an accepted decode
 	T   [][]int    `json:"t"`   // keys of the returned TypeMap, ascending
+	TV  [][][2]int `json:"tv"`  // the TypeMap values in that order (nil for known records)
 }
 
 var c10Sample = []metrics.Sample{{Name: "/gc/heap/allocs:bytes"}}
@@ -170,6 +171,7 @@ func c10Run(api string, in []byte, risky bool) (res c10Res) {
 	tb := c10NewTable()
 	res.K = [][][2]int{}
 	res.T = [][]int{}
+	res.TV = [][][2]int{}
 	res.Q = 2
 	if c10BigSeen[api] >= c10BigBudget && risky {
 		res.S = 1
@@ -227,6 +229,7 @@ func c10Run(api string, in []byte, risky bool) (res c10Res) {
 		recs := make([]Record, 0, len(keys))
 		for _, k := range keys {
 			res.T = append(res.T, c10Num(k))
+			res.TV = append(res.TV, c10Rle(tm[Type(k)]))
 			switch {
 			case k == 1:
 				recs = append(recs, MakePrimitiveRecord(1, &tb.v1))
